@@ -215,6 +215,7 @@ class GateCompiler(object):
         compiled_coeffs = [[] for tmp in range(num_controls)]
         for pulse_ind in range(num_controls):
             last_pulse_time = 0.0
+            first_pulse = True
             for start_time, tlist, coeff in pulse_instructions[pulse_ind]:
                 # compute the gate time, step size and coeffs
                 # according to different pulse mode
@@ -226,7 +227,11 @@ class GateCompiler(object):
                 ) = self._process_gate_pulse(start_time, tlist, coeff)
                 min_step_size = min(step_size, min_step_size)
 
-                if abs(last_pulse_time) < step_size * 1.0e-6:  # if first pulse
+                if first_pulse:
+                    # The grid of every channel starts at zero. (Comparing
+                    # last_pulse_time with the current step size misfires
+                    # when the durations differ by many orders of magnitude.)
+                    first_pulse = False
                     compiled_tlist[pulse_ind].append([0.0])
                     if pulse_mode == "continuous":
                         compiled_coeffs[pulse_ind].append([0.0])
